@@ -1,6 +1,6 @@
 (* Lemmas for C18: any number of concurrent follower reads (Model/RolesN.v) — on every schedule every finished read
    scanned at a revision at least the leader's revision when the read began, and the follower's revision never drops. *)
-From KB Require Import Model.Roles Model.RolesN Proofs.Roles.
+From KB Require Import Model.Roles Model.RolesN Model.C18Cases Proofs.Roles.
 Local Open Scope N_scope.
 
 (* ------------------------------------------------------------------ lists *)
@@ -239,3 +239,87 @@ Proof.
   change (n_init 2 l0 f0) with (abs (i_init l0 f0)) in H. rewrite <- abs_run in H.
   unfold nfresh, abs in H. cbn [n_thrs forallb] in H. rewrite andb_true_r in H. exact H.
 Qed.
+
+(* ------------------------------------------------------------------ schedules of n reads replayed on the code *)
+
+Lemma obs_fresh_of_thrs : forall thrs obs,
+  list_eqb tobs_eqb (map obs_of_thr thrs) obs = true ->
+  forallb thr_done thrs = true -> forallb thr_fresh thrs = true -> forallb tobs_fresh obs = true.
+Proof.
+  induction thrs as [|x thrs IH]; intros [|o obs] He Hd Hf; cbn in He; try discriminate; try reflexivity.
+  cbn [forallb] in Hd, Hf |- *.
+  apply andb_true_iff in He; destruct He as [He1 He2].
+  apply andb_true_iff in Hd; destruct Hd as [Hd1 Hd2].
+  apply andb_true_iff in Hf; destruct Hf as [Hf1 Hf2].
+  rewrite (IH obs He2 Hd2 Hf2), andb_true_r.
+  unfold thr_fresh in Hf1. unfold thr_done in Hd1. unfold obs_of_thr in He1. destruct (t_pc x); try discriminate Hd1.
+  destruct o as [d bg sc j]; cbn in He1 |- *.
+  repeat (apply andb_true_iff in He1; destruct He1 as [He1 ?]). destruct d; try discriminate.
+  apply N.eqb_eq in H0; apply N.eqb_eq in H1; subst. exact Hf1.
+Qed.
+
+(* a schedule of n reads that runs every read to completion and on which the model reproduces the observations:
+   every read is observed finished and fresh — C18_read_fresh_n at the run the case was checked against *)
+Lemma c18_schedn_sound : forall n l0 f0 ls obs sets fe,
+  c18_validb (SchedNCase n l0 f0 ls obs sets fe) = true ->
+  c18_check (SchedNCase n l0 f0 ls obs sets fe) = true -> c18_oracle (SchedNCase n l0 f0 ls obs sets fe) = None.
+Proof.
+  intros n l0 f0 ls obs sets fe Hv H. unfold c18_validb, c18_check, nrun_code in *. cbn [fst] in Hv.
+  apply andb_true_iff in H; destruct H as [H _]. apply andb_true_iff in H; destruct H as [Ho _].
+  pose proof (nread_fresh true n l0 f0 ls) as Hf. unfold nfresh in Hf.
+  unfold c18_oracle. rewrite (obs_fresh_of_thrs _ _ Ho Hv Hf). reflexivity.
+Qed.
+
+Lemma c18_sched3_sound : forall l0 f0 ls a b c sets fe,
+  c18_checkv (SchedNCase 3 l0 f0 ls [a; b; c] sets fe) = true ->
+  tobs_fresh a = true /\ tobs_fresh b = true /\ tobs_fresh c = true.
+Proof.
+  intros l0 f0 ls a b c sets fe H. unfold c18_checkv in H. apply andb_true_iff in H. destruct H as [Hv Hc].
+  pose proof (c18_schedn_sound _ _ _ _ _ _ _ Hv Hc) as Ho. unfold c18_oracle in Ho. cbn [forallb] in Ho.
+  destruct (tobs_fresh a), (tobs_fresh b), (tobs_fresh c); cbn in Ho; try discriminate Ho; auto.
+Qed.
+
+(* ------------------------------------------------------------------ soundness for every case kind *)
+
+(* the hypotheses of the per-kind soundness lemmas, as a proposition, and its decision *)
+Definition c18_valid_prop (c : c18_case) : Prop :=
+  match c with
+  | OverlapCase r _ _ _ _ _ => (0 < r)%N
+  | SchedCase l0 f0 ls _ _ _ =>
+      let s := run_code (i_init l0 f0) ls in t_pc (i_a s) = PDone /\ t_pc (i_b s) = PDone
+  | FollowCase _ _ r1 r2 _ _ => (0 < r1)%N /\ (r1 < r2)%N
+  | SchedNCase n l0 f0 ls _ _ _ => Forall (fun x => t_pc x = PDone) (n_thrs (nrun true (n_init n l0 f0) ls))
+  | _ => True
+  end.
+
+Lemma c18_validb_sound c : c18_validb c = true <-> c18_valid_prop c.
+Proof.
+  destruct c; cbn [c18_validb c18_valid_prop]; try tauto.
+  - unfold thr_done. rewrite andb_true_iff.
+    destruct (t_pc (i_a (run_code (i_init leader0 frev0) ls))), (t_pc (i_b (run_code (i_init leader0 frev0) ls)));
+      split; intros [H1 H2]; try discriminate; auto.
+  - apply N.ltb_lt.
+  - rewrite andb_true_iff, !N.ltb_lt. tauto.
+  - unfold nrun_code. cbn [fst]. rewrite forallb_forall, Forall_forall. unfold thr_done.
+    split; intros H x Hx; specialize (H x Hx); destruct (t_pc x); try discriminate; auto.
+Qed.
+
+(* every kind the driver emits: a valid case on which the model and the implementation agree satisfies the property *)
+Lemma c18_oracle_sound : forall c, c18_valid_prop c -> c18_check c = true -> c18_oracle c = None.
+Proof.
+  intros c Hv H. pose proof (proj2 (c18_validb_sound c) Hv) as Hvb. destruct c.
+  - apply (c18_role_sound _ _ _ _ _ H).
+  - apply (c18_sched_sound _ _ _ _ _ _ Hvb H).
+  - apply (c18_overlap_sound _ _ _ _ _ _ Hv H).
+  - destruct Hv as [H1 H2]. apply (c18_follow_sound _ _ _ _ _ _ H1 H2 H).
+  - apply (c18_schedn_sound _ _ _ _ _ _ _ Hvb H).
+  - apply (c18_forward_sound _ _ _ _ _ _ H).
+  - apply (c18_takeover_sound _ _ _ _ _ _ H).
+Qed.
+
+Lemma c18_checkv_sound : forall c, c18_checkv c = true -> c18_oracle c = None.
+Proof.
+  intros c H. unfold c18_checkv in H. apply andb_true_iff in H. destruct H as [Hv Hc].
+  apply c18_oracle_sound; [apply c18_validb_sound; exact Hv|exact Hc].
+Qed.
+
